@@ -1084,7 +1084,7 @@ def run(tier):
     chk.coverage = {
         'evaluations': n_eval + csv_stats['evaluations'],
         'distinct_nontrivial': nontrivial,
-        'rule': 'one evaluation = one data-function call (from a script or through the exported function) compared with the reference '
+        'rule': '+ round 7: dataFilter over rows whose expression value is a container / datetime / function (BareScript truthiness); one evaluation = one data-function call (from a script or through the exported function) compared with the reference '
                 '(rows, order, values, identity of rows, inputs unchanged); non-trivial = tables with >= 3 rows',
         'distribution': dist, 'skipped_outside_reference': n_skip, 'malformed_calls': len(mal),
         'exhaustive': True,
